@@ -72,7 +72,7 @@ CLAIMED = {
  "C01": dict(
    technique="translation validation per corpus program: real front end run natively, back end executed symbolically from MIR (mirsym -> z3), body compared with a hand-written denotation",
    category="translation_validation",
-   text="8 corpus programs (integer arithmetic with left-nested and parenthesised subtraction, multi-asset arithmetic, input datum with spread and variant cases, mint/burn/validity/signers/metadata/reference/collateral, list index / concat / list / map literals, locals and env, time/slot built-ins, two inputs) x 3 whitespace/comment layouts are parsed, analysed and lowered by the repository's own front end; the lowered TIR is then applied, reduced and compiled by the real back end executed from MIR with arguments, UTxO amounts and fee symbolic, and z3 shows every output (address, lovelace, per-class native assets, datum tree, order), mint quantity, validity bound, signer, reference, collateral, input, metadata entry and the fee equal to the denotation written by hand for that program.",
+   text="13 corpus programs (integer arithmetic with left-nested and parenthesised subtraction and negation, multi-asset arithmetic, input datum with spread, out-of-order record fields and variant cases, mint/burn/validity/signers/metadata/reference/collateral, net mint of several blocks, list index / concat / list / map literals, indexed access into an input datum, locals and env, a policy read as address / bytes / asset, time/slot built-ins, two inputs) x 3 whitespace/comment layouts are parsed, analysed and lowered by the repository's own front end; the lowered TIR is then applied, reduced and compiled by the real back end executed from MIR with arguments, UTxO amounts and fee symbolic, and z3 shows every output (address, lovelace, per-class native assets, datum tree, order), mint quantity, validity bound, signer, reference, collateral, input, metadata entry and the fee equal to the denotation written by hand for that program.",
    note="programs are enumerated (the corpus), not solver-quantified; amounts below 2^16 (quick) / 2^40 (thorough); one UTxO per input; min_utxo and byte-level CBOR outside.",
    design="§3 C01, §A.6"),
 }
